@@ -1,10 +1,11 @@
 SPECIFICATION Fair
 CONSTANTS
-  MaxLog = 5
+  MaxLog = 6
   MsgLimit = 3
   PropLimit = 2
-  MaxRestarts = 1
-  Deviations = {}
+  MaxRestarts = 2
+  MaxTimeouts = 3
+  Mode = "fixed"
 INVARIANTS ExactlyOnceInOrder
 PROPERTIES IndexMonotone Converges
 CHECK_DEADLOCK FALSE
